@@ -578,6 +578,8 @@ func (l *Lexer) shiftEndTag() []byte {
 	for nameEnd < len(l.text) {
 		if c := l.text[nameEnd]; c == ' ' || c == '\t' || c == '\n' || c == '\r' || c == '\f' || c == '/' {
 			break
+		} else if n := len(l.tmplBegin); 0 < n && nameEnd+n <= len(l.text) && string(l.text[nameEnd:nameEnd+n]) == string(l.tmplBegin) {
+			break // a template is left as it is
 		}
 		nameEnd++
 	}
